@@ -4,11 +4,17 @@
 #![allow(dead_code)]
 
 mod alloc;
+// The modules of the command-line tool that are private to it (keyring parser, key locking) are compiled only into the
+// second binary, krdrv (package krdriver = these sources with the feature on), so that a refactoring of those private
+// interfaces can break only the checks that reach into them, not every check.
+#[cfg(feature = "cli_private")]
 #[path = "/repo/src/cli/src/errors.rs"]
 mod errors;
 mod fuzz;
+#[cfg(feature = "cli_private")]
 #[path = "/repo/src/cli/src/keyring.rs"]
 mod keyring;
+#[cfg(feature = "cli_private")]
 mod kr;
 mod golden;
 mod noise;
@@ -62,6 +68,7 @@ fn real_main() {
             let t = terms::Templates::load(&args[2]);
             prims::run_file(&t, seed(), &args[3], &args[4]);
         }
+        #[cfg(feature = "cli_private")]
         "kr" => {
             if args.len() != 5 {
                 usage();
